@@ -352,7 +352,7 @@ pub fn context_ops() -> Vec<Op> {
         }));
     }
     // float API on invalid neighbours of valid numbers
-    for (x, n) in [(-1e-300f64, 1usize), (-1e-300, 2), (-5e-324, 2), (1.0000000000000002, 2), (f64::NAN, 2), (2.0, 1)] {
+    for (x, n) in [(-1e-300f64, 0usize), (-1e-300, 1), (-1e-300, 2), (-1e-300, 3), (-1e-300, 4), (-1e-300, 64), (-5e-324, 1), (-5e-324, 2), (1.0000000000000002, 1), (1.0000000000000002, 2), (f64::NAN, 2), (2.0, 1), (1.5, 2)] {
         v.push(context(format!("ctx root / validity of {x:?} ({n})"), move || {
             use narsese::api::EvidentNumber;
             let _ = quiet_catch(AssertUnwindSafe(|| {
